@@ -83,6 +83,8 @@ def handleC15 (fields : List String) : Verdict :=
     match n.toNat? with
     | none => Verdict.badLine "bad n"
     | some n =>
+      -- the harness's reader did not find three constraint lines before its own time limit: nothing is known
+      if cls == "unread" then { modelOk := false, modelOut := "three lists at the start of the output" } else
       if cls != "ok" then
         { modelOk := false, modelOut := "ok", oracle := some s!"n_queens_gen -n {n} did not write its first lists ({cls})" } else
       let want := (List.range 3).map (fun i => (List.range (n - i)).map (fun j => i + j * (n + 1)))
@@ -97,7 +99,7 @@ def handleC15 (fields : List String) : Verdict :=
             || l.all (fun b => b / n + a % n == a / n + b % n) || l.all (fun b => b / n + b % n == a / n + a % n)))
       -- `<= 1` and `< 2` say the same; `= 1` holds for every placement only over a whole row or column
       let tailsSound := ((tails.splitOn ";").zip got).all (fun (t, l) =>
-        let t := if t.endsWith " &" then (t.dropEnd 2).toString else t
+        let t := if t.endsWith " &" then (t.dropEnd 2).toString else if t.endsWith " and" then (t.dropEnd 4).toString else t
         t == "<= 1" || t == "< 2" || (t == "= 1" && l.eraseDups.length == n && (match l.head? with
           | none => false
           | some a => l.all (fun b => b / n == a / n) || l.all (fun b => b % n == a % n))))
